@@ -56,9 +56,12 @@ check("C12", "exploration",
 
 check("C13", "exploration",
       "exhaustive cross product of a program set with the five supported target versions, differential oracle against the default target",
-      "36 version-sensitive constructs, jump-width stress bodies (10..5000 statements in if/for/while/match/function) and the C01 quick families are compiled for each target 3.7-3.11 and executed "
-      "by that version's own interpreter; outcome must equal the 3.11 outcome. The Execute-mode path (`erg --py-command P file.er`) is driven for a construct subset with every interpreter.",
-      "Installed interpreters only; 3.11 is the reference.", engine="compile-batch+pyrun")
+      "36 version-sensitive constructs, jump-width stress bodies (10..5000 statements in if/for/while/match/function), the full product of with! body kinds (returns / raises / raises in callee / "
+      "raises first / suppressed) x 12 contexts x paddings, and the C01 quick families are compiled for each target 3.7-3.11 and executed "
+      "by that version's own interpreter; outcome must equal the 3.11 outcome (with! programs: the non-default targets must also agree with 3.10). The Execute-mode path "
+      "(`erg --py-command P file.er`) is driven for a construct subset with every interpreter.",
+      "Installed interpreters only; 3.11 is the reference. Three known findings about with! (known_findings.json): a regression confined to an input class they list is only seen through the agreement-with-3.10 oracle.",
+      engine="compile-batch+pyrun")
 
 check("C21", "model_checking",
       "explicit-state breadth-first search over operation sequences on the real ModuleGraph with a reference-graph invariant in every state",
